@@ -191,6 +191,40 @@ BUILT["C17"] = (
     "copy.copy is outside the statement.",
 )
 
+BUILT["C10"] = (
+    "model_checking",
+    "exhaustive channel x encoding x EOL product against the plain-string reference, plus stateless exploration of every history of reads/mutations/writes/copies up to a depth bound with observations compared to digests from a separate fresh interpreter",
+    "Part 1: three texts with non-ASCII header content through six input channels, eight storage/encoding settings and "
+    "LF/CRLF/CR give strictly equal canonical results. Part 2: every history up to depth 3 (quick) / 4 (thorough) over 25 "
+    "operations (reads from string/path/with other options, mutations of header values, default items, sections, curve "
+    "names, data in place, append/delete, writes with options, fresh LASFile mutate/write, pickle, deepcopy) is executed "
+    "in one interpreter; afterwards fresh reads of both texts, a fresh LASFile, a default write and the module-level "
+    "tables must hash to the digests a fresh interpreter produces.",
+    "Encodings outside the list are not covered; histories are enumerated without state pruning (hidden aliasing is the target).",
+)
+BUILT["C18"] = (
+    "exploration",
+    "exhaustive enumeration of objects x export option products x index-unit spellings, each output decoded by an independent reader (json strict, csv, openpyxl, pandas)",
+    "Eight LASFile objects (default, scratch with NaN/extreme values, single row, read files with integer/float/text "
+    "header values, text curves, duplicates and blanks, header-only) are exported as JSON (strict parser, every header "
+    "value and sample compared, NaN as null), CSV for the full 144-combination option product (header rows, record "
+    "count, every field parsed back), Excel (both sheets re-read with openpyxl), df()/set_data_from_df; the depth "
+    "views are checked for every DEPTH_UNITS member in upper/lower/title case on each of STRT/STOP/STEP/first curve "
+    "individually and jointly, all conflicting pairs, non-members and forced index_unit.",
+    "Trusts json, csv, openpyxl and pandas as decoders.",
+)
+BUILT["C20"] = (
+    "fault_enumeration",
+    "clean-run I/O trace recording through builtins.open/io.open interposition, then OSError injected at every recorded operation of every call scenario; input-induced failure classes enumerated",
+    "For 37 call scenarios (read of plain/BOM/latin-1/wrapped/inner-~A files via str and pathlib paths under chardet, "
+    "ad-hoc and explicit encodings; write(path)/to_csv(path) with options; caller-supplied file objects; no sections, "
+    "LiDAR magic, header error, reshape error, strict decoding error, missing file, write()/to_csv() raising after "
+    "open) the clean run's proxied operations are counted and the call repeated with an OSError at operation k for every "
+    "k; with the exception object still alive every file lasio opened must be closed, caller objects open, and the "
+    "LASFile must hold no open handle.",
+    "Faults are raised at call boundaries of read/readline/iteration/seek/tell/write on lasio-opened files only.",
+)
+
 PENDING_REASON = "check not built yet in this round (design in DESIGN.md section 3); nothing is claimed for it"
 
 
